@@ -493,7 +493,8 @@ class Engine:
             else:
                 assert isinstance(sub_flow, list)
                 for dependency in sub_flow:
-                    dependency = path + dependency
+                    # relative to the step's store, as in _add_step_path
+                    dependency = normalize_path(path + dependency)
                     if dependency not in step_paths:
                         raise ValueError(
                             f'Unknown dependency step {dependency} is '
